@@ -5,7 +5,7 @@ package lib
 // not only for a single announcement.
 //
 // A history is: ingest a message (real parse + ingest path), then any of {ingest the same message
-// again, a connection arrives (lookup + MarkActive), time passes, the sweeper runs}. Time is virtual:
+// again, a connection arrives (lookup, MarkActive, real Proxy with an unreachable covert), time passes, the sweeper runs}. Time is virtual:
 // advancing it shifts the recorded registration times backwards (the station only ever looks at
 // time.Since(registrationTime)) and moves the model's clock. The detector is modelled from the
 // announcements ACTUALLY published on the RESP server: each accepted New / Update (re)arms the
@@ -127,7 +127,7 @@ func c10RunHistory(w *c10World, h c10History) (map[string]bool, *c10Viol, error)
 			for _, d := range sorted() {
 				for _, r := range e.rm.GetRegistrations(d.PhantomIp) {
 					if r.(*DecoyRegistration) == d {
-						e.rm.MarkActive(d)
+						w.use(d)
 						cl["history:used"] = true
 						log = append(log, fmt.Sprintf("t=%v connection on %v", now, d.PhantomIp))
 					}
@@ -246,7 +246,7 @@ func c10GenHistory(rt *rapid.T) c10History {
 
 // TestVerif_C10_histories: generated messages x generated histories.
 func TestVerif_C10_histories(t *testing.T) {
-	rec := vh.NewRec("C10", "histories", "messages from C07's generator biased towards admission x histories [ingest] + 1-14 operations from {ingest the same message again, connection arrives (lookup + MarkActive), advance time by 1 min .. 6 h 2 min, sweep} + [sweep], through the real ingest path with the real sendToDetector publishing to the in-process RESP server. The detector's session table is modelled from the announcements actually published (timeout_ns counted from the moment each was published, the longer one kept). At every sweep point a registration the station still hands out must have a live session there (60 s slack): the station never accepts a registration for longer than it asked the detector to forward it. Non-trivial: the history re-delivers a registration that is still tracked, or marks one used. Distinct = (message, history).")
+	rec := vh.NewRec("C10", "histories", "messages from C07's generator biased towards admission x histories [ingest] + 1-14 operations from {ingest the same message again, connection arrives (lookup, MarkActive, real Proxy with an unreachable covert), advance time by 1 min .. 6 h 2 min, sweep} + [sweep], through the real ingest path with the real sendToDetector publishing to the in-process RESP server. The detector's session table is modelled from the announcements actually published (timeout_ns counted from the moment each was published, the longer one kept). At every sweep point a registration the station still hands out must have a live session there (60 s slack): the station never accepts a registration for longer than it asked the detector to forward it. Non-trivial: the history re-delivers a registration that is still tracked, or marks one used. Distinct = (message, history).")
 	defer rec.Flush()
 	rec.Require("history:duplicate-ingest", "history:sweep-past-detector-lifetime", "history:used", "history:still-served-and-forwarded", "history:re-ingest-after-expiry")
 	w := c10NewWorld(t, rec)
